@@ -25,6 +25,8 @@ def plan(tier, seed):
         conds += t2_conds("c01", 3, timeout=600, sep="crlf")
         bounds = {"T1": "full vocabulary N=3 (LF, CRLF); reduced vocabulary N=5; contexts x full N=2",
                   "T2": "every command, K=4 argument tokens (LF), K=3 (CRLF)"}
+    conds += t4_conds("c01", timeout=280 if q else 1500, quick=q)
+    bounds["T4"] = T4_BOUND
     conds += twins("c01")
     meta = dict(functions=PARSER_FUNCS, bounds=bounds,
                 outside=["free token sequences longer than N", "string contents (C04/C06)",
